@@ -1,30 +1,225 @@
-"""C06 — identifiers are unique within a workspace and stable across copies (structural clauses)."""
+"""C06 — identifiers are unique within a workspace and stable across copies (structural clauses).
+
+The rules decide on the PATHS of the anchored functions (sa/rules/_c06_sym.py): what happens on a path, in which order, under
+which decided conditions — with locals replaced by what they stand for, private helpers executed in place, hoisted tables
+unrolled.  Nothing here depends on the name of a local, on the shape of a condition or on the function a statement lives in.
+"""
 
 from __future__ import annotations
 
 import ast
 
-from ..cfg import CFG, dominators, forward, ordered
+from ..kinds import tv
 from ..model import AnalysisError, unparse
+from ..normalize import single_assignments
 from ..report import RuleResult
+from ._c06_sym import PURE_BUILTINS, Sym, call_name, norm_cond
 
 REGISTRIES = ("_data", "_groups", "_objects", "_types", "_property_groups")
 ENTITY_REGISTRIES = ("_data", "_groups", "_objects")
+KIND_OF = {"_types": "EntityType", "_groups": "Group", "_data": "Data", "_objects": "ObjectBase", "_property_groups": "PropertyGroup"}
+REBIND_IN = ("__init__", "open")
+LOOKUPS = ("get_entity", "find_entity", "find_property_group", "find_data", "find_object", "find_group")
+CROSS_KIND = ("find_entity", "get_entity", "list_entities_name")
+ATTACH = ("append", "extend", "insert")
+READ_ONLY = LOOKUPS + CROSS_KIND + ("get", "keys", "values", "items")
 
 
-def _only_raises(g, start):
-    seen, stack = set(), [start]
-    while stack:
-        n = stack.pop()
-        if n in seen:
-            continue
-        seen.add(n)
-        if n is g.exit:
+# ---------------------------------------------------------------------- small expression helpers
+def _t(e) -> str:
+    return unparse(e) if e is not None else ""
+
+
+def _root(e):
+    """Name at the root of an attribute / subscript / call chain."""
+    while isinstance(e, (ast.Attribute, ast.Subscript, ast.Call)):
+        e = e.func if isinstance(e, ast.Call) else e.value
+    return e.id if isinstance(e, ast.Name) else None
+
+
+def _implied(expr, pol=True) -> list:
+    """Atomic facts (normalised expr, polarity) that hold when `expr` has truth value `pol`."""
+    if isinstance(expr, ast.UnaryOp) and isinstance(expr.op, ast.Not):
+        return _implied(expr.operand, not pol)
+    if isinstance(expr, ast.BoolOp) and isinstance(expr.op, ast.And if pol else ast.Or):
+        return [f for v in expr.values for f in _implied(v, pol)]
+    if isinstance(expr, ast.BoolOp):
+        return []
+    return [norm_cond(expr, pol)]
+
+
+def _is_none_test(c):
+    """`X is None` / `X == None` -> X, else None."""
+    if isinstance(c, ast.Compare) and len(c.ops) == 1 and isinstance(c.ops[0], (ast.Is, ast.Eq)) \
+            and isinstance(c.comparators[0], ast.Constant) and c.comparators[0].value is None:
+        return c.left
+    return None
+
+
+def _absent(facts, pred) -> bool:
+    """The facts establish that some X with pred(X) is None / falsy."""
+    for c, pol in facts:
+        x = _is_none_test(c)
+        if x is not None and pol and pred(x):
+            return True
+        if x is None and not pol and not isinstance(c, ast.Compare) and pred(c):
+            return True  # `if not X:`
+    return False
+
+
+def _registry_attr(e, self_name):
+    if isinstance(e, ast.Attribute) and e.attr in REGISTRIES and isinstance(e.value, ast.Name) and e.value.id == self_name:
+        return e.attr
+    return None
+
+
+def _mentions(e, self_name, names) -> set:
+    return {x.attr for x in ast.walk(e) if isinstance(x, ast.Attribute) and x.attr in names and isinstance(x.value, ast.Name) and x.value.id == self_name}
+
+
+def _ev_exprs(ev):
+    return [x for x in (ev.expr, ev.value) if x is not None]
+
+
+def _const_key_values(e, key):
+    """Values stored under the constant key in any dict display inside the expression, and passed as keyword `key` to any call in it."""
+    out = []
+    for d in ast.walk(e):
+        if isinstance(d, ast.Dict):
+            out += [v for k, v in zip(d.keys, d.values) if isinstance(k, ast.Constant) and k.value == key]
+        elif isinstance(d, ast.Call):
+            out += [k.value for k in d.keywords if k.arg == key]
+    return out
+
+
+def _alternatives(v, facts=()):
+    """A value that is a conditional expression, as (value, facts that select it)."""
+    if isinstance(v, ast.IfExp):
+        yield from _alternatives(v.body, tuple(facts) + tuple(_implied(v.test, True)))
+        yield from _alternatives(v.orelse, tuple(facts) + tuple(_implied(v.test, False)))
+    else:
+        yield v, tuple(facts)
+
+
+def _paths(ctx, fn, boring=None, tag=""):
+    """Paths of a function (cached per check run)."""
+    key = ("c06.paths", fn.qualname, tag)
+    if key not in ctx.cache:
+        ctx.cache[key] = Sym(ctx, fn, boring=boring).run()
+    return ctx.cache[key]
+
+
+def _no_lookup(c) -> bool:
+    """A condition that does not ask whether an identifier is in use."""
+    return not any(isinstance(x, ast.Call) and call_name(x) in LOOKUPS for x in ast.walk(c))
+
+
+# ---------------------------------------------------------------------- who may re-bind a registry
+def _rebind_allowed(p, ws) -> set:
+    """Names of the Workspace methods in which a registry may be replaced: __init__ / open, and private helpers that are
+    only ever called (on self) from such a method."""
+    family = [c for c in p.classes if ws in c.mro]
+    cands = {n for c in family for n in c.methods if n.startswith("_") and not n.startswith("__")}
+    refs: dict = {n: [] for n in cands}  # name -> [(enclosing class is of the family, enclosing function, is a call on self)]
+    fam_names = {c.name for c in family}
+
+    def visit(node, cls_in_family, fname, self_name):
+        for ch in ast.iter_child_nodes(node):
+            if isinstance(ch, ast.ClassDef):
+                visit(ch, ch.name in fam_names, None, None)
+            elif isinstance(ch, (ast.FunctionDef, ast.AsyncFunctionDef)):
+                if fname is None:
+                    a = ch.args.posonlyargs + ch.args.args
+                    visit(ch, cls_in_family, ch.name, a[0].arg if a else None)
+                else:
+                    visit(ch, cls_in_family, fname, self_name)
+            else:
+                if isinstance(ch, ast.Call) and isinstance(ch.func, ast.Attribute) and ch.func.attr in refs:
+                    on_self = isinstance(ch.func.value, ast.Name) and ch.func.value.id == self_name
+                    refs[ch.func.attr].append((cls_in_family, fname, on_self))
+                    for sub in [ch.func.value] + list(ch.args) + [k.value for k in ch.keywords]:
+                        visit(ast.Expr(value=sub), cls_in_family, fname, self_name)
+                    continue
+                if isinstance(ch, ast.Attribute) and ch.attr in refs:
+                    refs[ch.attr].append((cls_in_family, fname, False))  # taken as a value: could be called from anywhere
+                if isinstance(ch, ast.Constant) and isinstance(ch.value, str) and ch.value in refs:
+                    refs[ch.value].append((cls_in_family, fname, False))  # getattr(self, "_name")
+                visit(ch, cls_in_family, fname, self_name)
+
+    for mod in p.modules.values():
+        visit(mod.tree, False, None, None)
+    allowed = set(REBIND_IN)
+    changed = True
+    while changed:
+        changed = False
+        for n in sorted(cands - allowed):
+            if refs[n] and all(fam and on_self and f in allowed for fam, f, on_self in refs[n]):
+                allowed.add(n)
+                changed = True
+    return allowed
+
+
+# ---------------------------------------------------------------------- Workspace.register, per kind of entity
+def _register_paths(ctx):
+    """kind -> paths of Workspace.register for an entity of exactly that kind (the five kinds are disjoint)."""
+    if "c06.register" not in ctx.cache:
+        reg = ctx.p.func("Workspace.register")
+        if len(reg.params) < 2:
+            raise AnalysisError("Workspace.register: entity parameter not found")
+        ent = reg.params[1]
+        out = {}
+        for kind in KIND_OF.values():
+            facts = {k: (k == kind) for k in KIND_OF.values()}
+            out[kind] = Sym(ctx, reg, assume=lambda c, facts=facts: tv(c, ent, facts)).run()
+        ctx.cache["c06.register"] = out
+    return ctx.cache["c06.register"]
+
+
+def _registry_writes(path, self_name, p, mod):
+    """(event, registry) for the calls on a path that receive one of the registries (the dead-reference sweeps apart)."""
+    out = []
+    for ev in path.trace:
+        if ev.kind == "call" and isinstance(ev.expr, ast.Call) and not _is_sweep(p, mod, ev.expr):
+            for a in list(ev.expr.args) + [k.value for k in ev.expr.keywords]:
+                r = _registry_attr(a, self_name)
+                if r:
+                    out.append((ev, r))
+                    break
+                if call_name(ev.expr) == "insert_once" and a is (ev.expr.args[0] if ev.expr.args else None) \
+                        and isinstance(a, ast.Call) and call_name(a) == "getattr":
+                    raise AnalysisError(f"Workspace.register: cannot tell which registry `{_t(a)[:60]}` is")
+    return out
+
+
+def _is_weakref_util(p, mod, call, names) -> bool:
+    f = call.func
+    if isinstance(f, ast.Name):
+        return f.id in names
+    if isinstance(f, ast.Attribute) and f.attr in names and isinstance(f.value, ast.Name):
+        r = p.resolve_name(mod, f.value.id)
+        return f.value.id == "weakref_utils" or bool(r and r[0] == "module" and r[1].relpath.endswith("weakref_utils.py"))
+    return False
+
+
+def _is_insert_once(p, mod, call) -> bool:
+    return _is_weakref_util(p, mod, call, ("insert_once",))
+
+
+def _is_sweep(p, mod, call) -> bool:
+    """The look-up / clean-up functions of weakref_utils: they only drop entries whose referent is dead."""
+    return _is_weakref_util(p, mod, call, ("get_clean_ref", "remove_none_referents"))
+
+
+def _is_effect(ev, path, p, mod) -> bool:
+    if ev.kind == "call":
+        f = ev.expr.func
+        if _is_sweep(p, mod, ev.expr):
             return False
-        if n.kind == "raise":
-            continue
-        stack.extend(m for m, _ in n.succ)
-    return True
+        # look-ups and pure builtins change nothing
+        return not (isinstance(f, ast.Name) and f.id in PURE_BUILTINS or isinstance(f, ast.Attribute) and f.attr in READ_ONLY)
+    if ev.kind in ("store", "del", "aug"):
+        return _root(ev.expr) not in path.objdefs  # filling a local object is not an effect
+    return False
 
 
 def rule_own(ctx, rule_id="C06.OWN", prop="C06") -> RuleResult:
@@ -38,84 +233,190 @@ def rule_own(ctx, rule_id="C06.OWN", prop="C06") -> RuleResult:
     )
     p = ctx.p
     ws = p.cls("Workspace")
+    allowed = _rebind_allowed(p, ws)
     for fn in p.all_functions():
+        in_ws = fn.cls is not None and ws in fn.cls.mro
+        aliases = {}
+        if any(isinstance(n, ast.Attribute) and n.attr in REGISTRIES for n in ast.walk(fn.node)):
+            aliases = {k: v for k, v in single_assignments(fn.node).items() if isinstance(v, ast.Attribute) and v.attr in REGISTRIES}
         for n in ast.walk(fn.node):
             # re-binding
             if isinstance(n, ast.Attribute) and n.attr in REGISTRIES and isinstance(n.ctx, ast.Store) and isinstance(n.value, ast.Name):
-                if fn.cls is not None and ws in fn.cls.mro and n.value.id == fn.self_name:
-                    ok = fn.name in ("__init__", "open")
+                if in_ws and n.value.id == fn.self_name:
+                    ok = fn.name in allowed
                     res.inst(f"{fn.qualname}:{n.lineno} re-binds self.{n.attr}", ok=ok)
                     if not ok:
                         res.find("Workspace", fn.prop or fn.name, f"re-binds registry self.{n.attr}", f"{fn.module.relpath}:{n.lineno}",
                                  "a registry is replaced outside __init__/open: live entities drop out of the uid lookup and their uids can be reused")
-            # item store / delete on a registry expression
-            if isinstance(n, ast.Subscript) and isinstance(n.ctx, (ast.Store, ast.Del)) and isinstance(n.value, ast.Attribute) and n.value.attr in REGISTRIES:
-                if isinstance(n.value.value, ast.Name) and (fn.cls is None or n.value.value.id == fn.self_name and ws in fn.cls.mro or n.value.value.id != fn.self_name):
+            if isinstance(n, ast.Call) and isinstance(n.func, ast.Name) and n.func.id == "setattr" and len(n.args) == 3 and in_ws \
+                    and isinstance(n.args[0], ast.Name) and n.args[0].id == fn.self_name and isinstance(n.args[1], ast.Constant) and n.args[1].value in REGISTRIES:
+                ok = fn.name in allowed
+                res.inst(f"{fn.qualname}:{n.lineno} re-binds self.{n.args[1].value}", ok=ok)
+                if not ok:
+                    res.find("Workspace", fn.prop or fn.name, f"re-binds registry self.{n.args[1].value}", f"{fn.module.relpath}:{n.lineno}",
+                             "a registry is replaced outside __init__/open: live entities drop out of the uid lookup and their uids can be reused")
+            # setattr(self, name, ..) in a loop over a literal table of attribute names that holds registries
+            if isinstance(n, ast.For) and in_ws and isinstance(n.target, ast.Name):
+                it = n.iter
+                if isinstance(it, ast.Name):
+                    r = p.resolve_name(fn.module, it.id)
+                    it = r[1][1] if r and r[0] == "assign" else it
+                hit = sorted({e.value for e in ast.walk(it) if isinstance(e, ast.Constant) and e.value in REGISTRIES}) if isinstance(it, (ast.Tuple, ast.List, ast.Set, ast.Dict)) else []
+                sets = [c for b in n.body for c in ast.walk(b) if isinstance(c, ast.Call) and isinstance(c.func, ast.Name) and c.func.id == "setattr" and len(c.args) == 3
+                        and isinstance(c.args[0], ast.Name) and c.args[0].id == fn.self_name and isinstance(c.args[1], ast.Name) and c.args[1].id == n.target.id]
+                for r_ in hit if sets else []:
+                    ok = fn.name in allowed
+                    res.inst(f"{fn.qualname}:{n.lineno} re-binds self.{r_}", ok=ok)
+                    if not ok:
+                        res.find("Workspace", fn.prop or fn.name, f"re-binds registry self.{r_}", f"{fn.module.relpath}:{n.lineno}",
+                                 "a registry is replaced outside __init__/open: live entities drop out of the uid lookup and their uids can be reused")
+            # item store / delete on a registry expression (directly or through a local alias of the registry)
+            base = n.value if isinstance(n, ast.Subscript) and isinstance(n.ctx, (ast.Store, ast.Del)) else None
+            if isinstance(base, ast.Name) and base.id in aliases:
+                base = aliases[base.id]
+            if isinstance(base, ast.Attribute) and base.attr in REGISTRIES:
+                if isinstance(base.value, ast.Name) and (fn.cls is None or base.value.id == fn.self_name and in_ws or base.value.id != fn.self_name):
                     # fields named _data / _groups ... of other classes (Concatenator._data) are different fields
-                    if fn.cls is not None and ws not in fn.cls.mro and n.value.value.id == fn.self_name:
+                    if fn.cls is not None and not in_ws and base.value.id == fn.self_name:
                         continue
-                    res.inst(f"{fn.qualname}:{n.lineno} direct item store on {unparse(n.value)}", ok=False)
-                    res.find(fn.cls.name if fn.cls else fn.module.short, fn.prop or fn.name, f"direct store/delete on registry {unparse(n.value)}",
+                    res.inst(f"{fn.qualname}:{n.lineno} direct item store on {unparse(base)}", ok=False)
+                    res.find(fn.cls.name if fn.cls else fn.module.short, fn.prop or fn.name, f"direct store/delete on registry {unparse(base)}",
                              f"{fn.module.relpath}:{n.lineno}", "a registry entry is written without the duplicate check of insert_once")
             # mutating calls on a registry
-            if isinstance(n, ast.Call) and isinstance(n.func, ast.Attribute) and n.func.attr in ("update", "pop", "clear", "setdefault", "popitem"):
+            if isinstance(n, ast.Call) and isinstance(n.func, ast.Attribute) and n.func.attr in ("update", "pop", "clear", "setdefault", "popitem", "__setitem__", "__delitem__"):
                 b = n.func.value
-                if isinstance(b, ast.Attribute) and b.attr in REGISTRIES and isinstance(b.value, ast.Name) and fn.cls is not None and ws in fn.cls.mro and b.value.id == fn.self_name:
+                if isinstance(b, ast.Name) and b.id in aliases:
+                    b = aliases[b.id]
+                if isinstance(b, ast.Attribute) and b.attr in REGISTRIES and isinstance(b.value, ast.Name) and in_ws and b.value.id == fn.self_name:
+                    what = f"{n.func.attr}(..) on registry self.{b.attr}" if b is not n.func.value else unparse(n)[:40] + " on a registry"
                     res.inst(f"{fn.qualname}:{n.lineno} {unparse(n)[:40]}", ok=False)
-                    res.find("Workspace", fn.prop or fn.name, f"{unparse(n)[:40]} on a registry", f"{fn.module.relpath}:{n.lineno}",
+                    res.find("Workspace", fn.prop or fn.name, what, f"{fn.module.relpath}:{n.lineno}",
                              "registry edited outside insert_once / the dead-reference sweep")
-    # register -> insert_once only
+    # register -> insert_once only, as the first effect, for every kind
     reg = p.func("Workspace.register")
-    calls = [c for c in ast.walk(reg.node) if isinstance(c, ast.Call) and c.args and isinstance(c.args[0], ast.Attribute) and c.args[0].attr in REGISTRIES]
-    for c in calls:
-        ok = unparse(c.func) in ("weakref_utils.insert_once", "insert_once") and len(c.args) == 3 and unparse(c.args[1]).endswith(".uid") and unparse(c.args[2]) == unparse(c.args[1])[:-4]
-        res.inst(f"register: {unparse(c)[:70]}", ok=ok)
-        if not ok:
-            res.find("Workspace", "register", f"registry written by {unparse(c)[:60]}", f"{reg.module.relpath}:{c.lineno}",
-                     "an entity is registered without the live-duplicate check, or under a key that is not its own uid")
-    for br in [x for x in ast.walk(reg.node) if isinstance(x, ast.If) and isinstance(x.test, ast.Call) and unparse(x.test.func) == "isinstance"]:
-        first_ins = None
-        order_ok = True
-        for st_ in br.body:
-            has_ins = any(isinstance(c, ast.Call) and unparse(c.func).endswith("insert_once") for c in ast.walk(st_))
-            other = [c for c in ast.walk(st_) if isinstance(c, ast.Call) and not unparse(c.func).endswith("insert_once") and unparse(c.func) not in ("isinstance",)]
-            if has_ins and first_ins is None:
-                first_ins = st_
-            elif other and first_ins is None:
-                order_ok = False
-        res.inst(f"register[{unparse(br.test.args[1])}]: insert_once is the first effect of the branch", nontrivial=True, ok=order_ok)
-        if not order_ok:
-            res.find("Workspace", "register", f"an effect precedes insert_once in the {unparse(br.test.args[1])} branch", f"{reg.module.relpath}:{br.lineno}",
-                     "a registration that insert_once refuses (uid in use) has already written to the file / changed other state")
-    regs_used = {c.args[0].attr for c in calls}
+    me = reg.self_name
+    regs_used = set()
+    seen_calls = set()
+    for kind, paths in _register_paths(ctx).items():
+        order_ok, inserts = True, 0
+        for path in paths:
+            writes = _registry_writes(path, me, p, reg.module)
+            for ev, r in writes:
+                c = ev.expr
+                ok = _is_insert_once(p, reg.module, c) and len(c.args) == 3 and not c.keywords and _registry_attr(c.args[0], me) == r \
+                    and _t(c.args[1]) == _t(c.args[2]) + ".uid" and not ev.maybe
+                if ok:
+                    regs_used.add(r)
+                if (id(ev.node), _t(c)) not in seen_calls:
+                    seen_calls.add((id(ev.node), _t(c)))
+                    res.inst(f"register: {_t(c)[:70]}", ok=ok)
+                if not ok:
+                    res.find("Workspace", "register", f"registry self.{r} written by {call_name(c) or 'a call'}(..)", f"{reg.module.relpath}:{ev.lineno}",
+                             "an entity is registered without the live-duplicate check, or under a key that is not its own uid")
+            first = next((ev for ev, _ in writes if _is_insert_once(p, reg.module, ev.expr)), None)
+            if first is not None:
+                inserts += 1
+                if any(_is_effect(ev, path, p, reg.module) for ev in path.before(first)):
+                    order_ok = False
+        if inserts:
+            res.inst(f"register[{kind}]: insert_once is the first effect of the branch", nontrivial=True, ok=order_ok)
+            if not order_ok:
+                res.find("Workspace", "register", f"an effect precedes insert_once in the {kind} branch", reg.where,
+                         "a registration that insert_once refuses (uid in use) has already written to the file / changed other state")
     ok = regs_used == set(REGISTRIES)
     res.inst(f"register covers registries {sorted(regs_used)}", ok=ok)
     if not ok:
         res.find("Workspace", "register", f"registries {sorted(set(REGISTRIES) - regs_used)} never receive entries", reg.where,
                  "entities of that kind are not registered: lookups by uid fail and uids can be duplicated")
-    # insert_once: raise dominates the store, store is a weakref
+    _own_insert_once(ctx, res)
+    _own_children(ctx, res)
+    return res
+
+
+def _own_insert_once(ctx, res):
+    """insert_once: the entry is stored as a weak reference, and only when no live referent holds the key; the live case raises."""
+    p = ctx.p
     io = p.module("shared/weakref_utils.py").functions.get("insert_once")
-    if io is None:
+    if io is None or len(io.params) < 3:
         raise AnalysisError("anchor weakref_utils.insert_once not found")
     d, k, v = io.params[:3]
-    g = CFG(io.node)
-    dom = dominators(g)
-    stores = [n for n in g.nodes if n.kind == "stmt" and isinstance(n.ast, ast.Assign) and isinstance(n.ast.targets[0], ast.Subscript) and unparse(n.ast.targets[0].value) == d]
+    paths = _paths(ctx, io)
+    entry = {f"{d}.get({k})", f"{d}.get({k}, None)", f"{d}[{k}]"}
+
+    def existing(x):  # the entry under the key, or its referent
+        return _t(x) in entry or (isinstance(x, ast.Call) and not x.args and not x.keywords and _t(x.func) in entry)
+
+    def key_in_dict(c):
+        return isinstance(c, ast.Compare) and len(c.ops) == 1 and isinstance(c.ops[0], ast.In) and _t(c.left) == k \
+            and _t(c.comparators[0]) in (d, f"{d}.keys()")
+
+    def referent(x):
+        return isinstance(x, ast.Call) and existing(x) and _t(x) not in entry
+
+    stores = {}
+    silent = False
+    replaces_dead = False
+    for path in paths:
+        mine = [ev for ev in path.trace if ev.kind == "store" and isinstance(ev.expr, ast.Subscript) and _t(ev.expr.value) == d]
+        if path.end != "raise" and all(ev.maybe for ev in mine):
+            silent = True
+        for ev in mine:
+            facts = path.conds_before(ev)
+            guarded = _t(ev.expr.slice) == k and (_absent(facts, existing) or any(key_in_dict(c) and not pol for c, pol in facts))
+            replaces_dead |= _absent(facts, referent)
+            weak = _t(ev.value) in (f"weakref.ref({v})", f"ref({v})", f"ReferenceType({v})", f"weakref.ReferenceType({v})")
+            s = stores.setdefault(id(ev.node), {"ev": ev, "weak": True, "guarded": True})
+            s["weak"] &= weak
+            s["guarded"] &= guarded
     if not stores:
         raise AnalysisError("weakref_utils.insert_once: store not found")
-    for s in stores:
-        weak = unparse(s.ast.value) in (f"weakref.ref({v})", f"ref({v})", f"ReferenceType({v})")
-        res.inst(f"insert_once stores {unparse(s.ast.value)} (weak reference)", ok=weak)
-        if not weak:
-            res.find("weakref_utils", "insert_once", f"stores {unparse(s.ast.value)[:40]}", f"{io.module.relpath}:{s.lineno}",
+    for s in stores.values():
+        ev = s["ev"]
+        res.inst(f"insert_once stores {_t(ev.value)} (weak reference)", ok=s["weak"])
+        if not s["weak"]:
+            res.find("weakref_utils", "insert_once", "the registry entry stored is not a weak reference to the value", f"{io.module.relpath}:{ev.lineno}",
                      "the registry holds a strong reference: removed entities never die, their nodes are never swept and their uids stay taken")
-        guards = [t for t in dom[s] if t.kind == "test" and "is not None" in unparse(t.ast) and all(_only_raises(g, m) for m, l in t.succ if l == "true")]
-        live = any("()" in unparse(t.ast) for t in guards)
-        res.inst("insert_once: `existing is not None and existing() is not None -> raise` dominates the store", nontrivial=True, ok=bool(guards) and live)
-        if not (guards and live):
-            res.find("weakref_utils", "insert_once", "live-duplicate raise does not dominate the store", f"{io.module.relpath}:{s.lineno}",
+        # refused only when the referent is alive: an entry whose referent died is replaced
+        ok = s["guarded"] and not silent and replaces_dead
+        res.inst("insert_once: `existing is not None and existing() is not None -> raise` dominates the store", nontrivial=True, ok=ok)
+        if not ok:
+            res.find("weakref_utils", "insert_once", "live-duplicate raise does not dominate the store", f"{io.module.relpath}:{ev.lineno}",
                      "a second live entity can take a uid that is in use")
-    # children hold strong references
+
+
+def _uids_of_children(e, me) -> bool:
+    """The expression is the collection of the uids of self's children."""
+    while isinstance(e, ast.Call) and (isinstance(e.func, ast.Name) and e.func.id in ("set", "list", "tuple", "frozenset", "dict", "sorted") and len(e.args) == 1
+                                       or isinstance(e.func, ast.Attribute) and e.func.attr == "keys" and not e.args):
+        e = e.args[0] if e.args else e.func.value
+    if isinstance(e, (ast.ListComp, ast.SetComp, ast.GeneratorExp, ast.DictComp)) and len(e.generators) == 1:
+        g = e.generators[0]
+        key = e.key if isinstance(e, ast.DictComp) else e.elt
+        return _t(g.iter) in (f"{me}._children", f"{me}.children") and isinstance(g.target, ast.Name) and _t(key) == f"{g.target.id}.uid"
+    return False
+
+
+def _attached(ev, me):
+    """(element expression, facts about the element) for an event that adds to self._children, else None."""
+    c = ev.expr
+    if ev.kind == "call" and isinstance(c.func, ast.Attribute) and c.func.attr in ATTACH and _t(c.func.value) == f"{me}._children" and c.args:
+        arg = c.args[-1]
+    elif ev.kind == "aug" and _t(c) == f"{me}._children":
+        arg = ev.value
+    else:
+        return None
+    if ev.kind == "call" and c.func.attr != "extend":
+        return [(arg, [])]
+    if isinstance(arg, (ast.ListComp, ast.GeneratorExp, ast.SetComp)) and len(arg.generators) == 1:
+        return [(arg.elt, [f for cond in arg.generators[0].ifs for f in _implied(cond, True)])]
+    if isinstance(arg, (ast.List, ast.Tuple)):
+        return [(x, []) for x in arg.elts]
+    return [(arg, [])]
+
+
+def _own_children(ctx, res):
+    """children lists hold the entities themselves; ObjectBase refuses a child whose uid is already among its children's uids."""
+    p = ctx.p
     for cname in ("EntityContainer", "ObjectBase", "Concatenator"):
         K = p.cls(cname)
         fn = K.methods.get("add_children")
@@ -125,30 +426,37 @@ def rule_own(ctx, rule_id="C06.OWN", prop="C06") -> RuleResult:
                 fn = p.cls("Group").methods.get("add_children")
             if fn is None:
                 continue
-        apps = [c for c in ast.walk(fn.node) if isinstance(c, ast.Call) and isinstance(c.func, ast.Attribute) and c.func.attr == "append" and unparse(c.func.value) == "self._children"]
-        for c in apps:
-            ok = isinstance(c.args[0], ast.Name)
-            res.inst(f"{fn.qualname}: self._children.append({unparse(c.args[0])}) keeps the entity itself", ok=ok)
+        me = fn.self_name
+        sites = {}
+        for path in _paths(ctx, fn):
+            for ev in path.trace:
+                for elem, facts in _attached(ev, me) or []:
+                    s = sites.setdefault((id(ev.node), _t(elem)), {"ev": ev, "elem": elem, "by_uid": True})
+                    facts = list(facts) + path.conds_before(ev)
+                    child = _t(elem)
+                    not_among = any(not pol and isinstance(c, ast.Compare) and isinstance(c.ops[0], ast.In) and _t(c.left) == f"{child}.uid"
+                                    and _uids_of_children(c.comparators[0], me) for c, pol in facts)
+                    not_any = any(not pol and isinstance(c, ast.Call) and call_name(c) == "any" and len(c.args) == 1 and isinstance(c.args[0], ast.GeneratorExp)
+                                  and len(c.args[0].generators) == 1 and _t(c.args[0].generators[0].iter) in (f"{me}._children", f"{me}.children")
+                                  and isinstance(c.args[0].elt, ast.Compare) and isinstance(c.args[0].elt.ops[0], ast.Eq)
+                                  and {_t(c.args[0].elt.left), _t(c.args[0].elt.comparators[0])} == {f"{child}.uid", f"{_t(c.args[0].generators[0].target)}.uid"}
+                                  for c, pol in facts)
+                    s["by_uid"] &= not_among or not_any
+        if cname == "ObjectBase" and not sites:
+            raise AnalysisError("ObjectBase.add_children: the statement that attaches a child to self._children was not found")
+        for s in sites.values():
+            ev, elem = s["ev"], s["elem"]
+            ok = isinstance(elem, ast.Name)
+            res.inst(f"{fn.qualname}: self._children gets {_t(elem)[:40]}: keeps the entity itself", ok=ok)
             if not ok:
-                res.find(fn.cls.name, "add_children", f"children list stores {unparse(c.args[0])[:40]}", f"{fn.module.relpath}:{c.lineno}",
+                res.find(fn.cls.name, "add_children", "children list stores something else than the child itself", f"{fn.module.relpath}:{ev.lineno}",
                          "children are not kept alive by their parent: they die at the next GC and their nodes are swept from the file")
-    ob = p.cls("ObjectBase").methods["add_children"]
-    apps = [c for c in ast.walk(ob.node) if isinstance(c, ast.Call) and isinstance(c.func, ast.Attribute) and c.func.attr == "append" and unparse(c.func.value) == "self._children"]
-    for c in apps:
-        guard = None
-        for i in ast.walk(ob.node):
-            if isinstance(i, ast.If) and any(x is c for s_ in i.body for x in ast.walk(s_)):
-                guard = i if guard is None else guard
-        child = unparse(c.args[0])
-        by_uid = guard is not None and any(isinstance(x, ast.Compare) and isinstance(x.ops[0], ast.NotIn) and unparse(x.left) == f"{child}.uid" for x in ast.walk(guard.test))
-        uids_of_children = any(isinstance(a, ast.Assign) and ".uid" in unparse(a.value) and "self._children" in unparse(a.value) for a in ast.walk(ob.node))
-        ok = by_uid and uids_of_children
-        res.inst("ObjectBase.add_children refuses a child whose uid is already among the children's uids", nontrivial=True, ok=ok)
-        if not ok:
-            res.find("ObjectBase", "add_children", "duplicate guard compares objects, not identifiers", f"{ob.module.relpath}:{c.lineno}",
-                     "a new child that re-uses a sibling's uid is attached before registration refuses it: the object ends up with two children "
-                     "sharing one identifier")
-    return res
+            if cname == "ObjectBase":
+                res.inst("ObjectBase.add_children refuses a child whose uid is already among the children's uids", nontrivial=True, ok=s["by_uid"])
+                if not s["by_uid"]:
+                    res.find("ObjectBase", "add_children", "duplicate guard compares objects, not identifiers", f"{fn.module.relpath}:{ev.lineno}",
+                             "a new child that re-uses a sibling's uid is attached before registration refuses it: the object ends up with two children "
+                             "sharing one identifier")
 
 
 def rule_xkind(ctx) -> RuleResult:
@@ -161,26 +469,32 @@ def rule_xkind(ctx) -> RuleResult:
     )
     p = ctx.p
     reg = p.func("Workspace.register")
-    ent = reg.params[1]
+    me = reg.self_name
     kinds = {"Group": "_groups", "Data": "_data", "ObjectBase": "_objects"}
+    allp = _register_paths(ctx)
     # registries (or cross-kind lookups) consulted on the way to each insertion
-    for n in ast.walk(reg.node):
-        if isinstance(n, ast.If) and isinstance(n.test, ast.Call) and unparse(n.test.func) == "isinstance" and unparse(n.test.args[1]) in kinds:
-            kind = unparse(n.test.args[1])
-            body_txt = unparse(ast.Module(body=n.body, type_ignores=[]))
-            pre = []
-            for st in reg.node.body:
-                if st is n or any(x is n for x in ast.walk(st)):
-                    break
-                pre.append(unparse(st))
-            seen = {r for r in ENTITY_REGISTRIES if f"self.{r}" in body_txt or any(f"self.{r}" in t for t in pre)}
-            cross = any(tok in body_txt or any(tok in t for t in pre) for tok in ("find_entity(", "get_entity(", "list_entities_name"))
-            ok = cross or seen == set(ENTITY_REGISTRIES)
-            res.inst(f"register[{kind}] consults {sorted(seen)}{' + cross-kind lookup' if cross else ''}", nontrivial=True, ok=ok)
-            if not ok:
-                res.find("Workspace", "register", "duplicate test limited to the registry of the entity's own kind", reg.where,
-                         f"a {kind} is only checked against self.{kinds[kind]}: an entity of another kind may hold the same uid and "
-                         "get_entity(uid) then returns only one of them", kind=kind)
+    for kind in kinds:
+        seen, cross, n = None, True, 0
+        for path in allp[kind]:
+            ins = [ev for ev, _ in _registry_writes(path, me, p, reg.module)]
+            if not ins:
+                continue
+            n += 1
+            upto = path.before(ins[0]) + [ins[0]]
+            s = set()
+            for ev in upto:
+                for x in _ev_exprs(ev):
+                    s |= _mentions(x, me, ENTITY_REGISTRIES)
+            seen = s if seen is None else seen & s
+            cross = cross and any(ev.kind == "call" and not ev.maybe and call_name(ev.expr) in CROSS_KIND for ev in upto[:-1])
+        if not n:
+            continue
+        ok = cross or seen == set(ENTITY_REGISTRIES)
+        res.inst(f"register[{kind}] consults {sorted(seen)}{' + cross-kind lookup' if cross else ''}", nontrivial=True, ok=ok)
+        if not ok:
+            res.find("Workspace", "register", "duplicate test limited to the registry of the entity's own kind", reg.where,
+                     f"a {kind} is only checked against self.{kinds[kind]}: an entity of another kind may hold the same uid and "
+                     "get_entity(uid) then returns only one of them", kind=kind)
     return res
 
 
@@ -195,36 +509,35 @@ def rule_effect(ctx) -> RuleResult:
     p = ctx.p
     for spec in ("Entity.__init__", "PropertyGroup.__init__"):
         fn = p.func(spec)
-        g = CFG(fn.node)
+        me = fn.self_name
 
-        def kind_of(n):
-            if n.ast is None or isinstance(n.ast, list):
-                return None
-            for c in ast.walk(n.ast):
-                if isinstance(c, ast.Call):
-                    f = unparse(c.func)
-                    if f.endswith(".register") and c.args and unparse(c.args[0]) == "self":
-                        return "register"
-                    if f == "map_attributes" or f.endswith(".add_children"):
-                        return "effect"
-                    if isinstance(c.func, ast.Name) and c.func.id == "setattr" and unparse(c.args[0]) == "self" and "parent" in unparse(c.args[1]):
-                        return "effect"
-                if isinstance(c, ast.Assign) and any(unparse(t) == "self.parent" for t in c.targets):
+        def kind_of(ev):
+            if ev.kind == "call":
+                c = ev.expr
+                name = call_name(c)
+                if name == "register" and isinstance(c.func, ast.Attribute) and c.args and _t(c.args[0]) == me:
+                    return "register"
+                if name == "map_attributes" or (name == "add_children" and isinstance(c.func, ast.Attribute)):
                     return "effect"
+                if isinstance(c.func, ast.Name) and name == "setattr" and len(c.args) >= 2 and _t(c.args[0]) == me and "parent" in _t(c.args[1]):
+                    return "effect"
+            if ev.kind in ("store", "aug") and _t(ev.expr) == f"{me}.parent":
+                return "effect"
             return None
 
-        def transfer(node, st):
-            k = kind_of(node)
-            if k == "effect":
-                return st | {node.lineno}
-            return st
-
-        IN = forward(g, frozenset(), transfer, lambda a, b: a | b)
-        regs = [n for n in g.nodes if kind_of(n) == "register"]
+        regs = {}
+        for path in _paths(ctx, fn, boring=lambda c: True, tag="order"):
+            effects = []
+            for ev in path.trace:
+                k = kind_of(ev)
+                if k == "effect":
+                    effects.append(ev.lineno)
+                elif k == "register":
+                    regs.setdefault(id(ev.node), (ev, set()))[1].update(effects)
         if not regs:
             raise AnalysisError(f"{spec}: workspace.register(self) not found")
-        for r in regs:
-            before = sorted(IN.get(r, frozenset()))
+        for r, lines in regs.values():
+            before = sorted(lines)
             ok = not before
             res.inst(f"{spec}: register(self) at line {r.lineno}, effects on other objects before it: {before}", nontrivial=True, ok=ok)
             if not ok:
@@ -235,6 +548,27 @@ def rule_effect(ctx) -> RuleResult:
     return res
 
 
+def _strip_ws(e):
+    """X for X.workspace, X.root.workspace, ...: the root of a workspace lives in that workspace, Workspace.workspace is the workspace."""
+    while isinstance(e, ast.Attribute) and e.attr in ("workspace", "root"):
+        e = e.value
+    return e
+
+
+def _uid_reuse(ev):
+    """Values an event puts under the key / keyword 'uid' (a dict item store, a dict display, a keyword argument)."""
+    if ev.kind == "store" and isinstance(ev.expr, ast.Subscript) and isinstance(ev.expr.slice, ast.Constant) and ev.expr.slice.value == "uid":
+        return [ev.value]
+    if ev.kind == "obj":
+        return _const_key_values(ev.value, "uid")
+    if ev.kind == "call":
+        c = ev.expr
+        if call_name(c) == "setdefault" and len(c.args) == 2 and isinstance(c.args[0], ast.Constant) and c.args[0].value == "uid":
+            return [c.args[1]]
+        return _const_key_values(c, "uid")
+    return []
+
+
 def rule_guard(ctx) -> RuleResult:
     res = RuleResult(
         "C06.GUARD",
@@ -243,59 +577,145 @@ def rule_guard(ctx) -> RuleResult:
         floor=3,
     )
     p = ctx.p
-    # (function, name of the object that stands for the target)
-    for spec, target in (("Workspace.copy_to_parent", "parent"), ("Workspace.copy_property_groups", "entity")):
+    # (function, name of the parameter that stands for the target, the call that creates the copy)
+    for spec, target, creators in (("Workspace.copy_to_parent", "parent", ("create_entity",)),
+                                   ("Workspace.copy_property_groups", "entity", ("find_or_create_property_group",))):
         fn = p.func(spec)
-        reuse = [a for a in ast.walk(fn.node) if isinstance(a, ast.Assign) and isinstance(a.targets[0], ast.Subscript)
-                 and isinstance(a.targets[0].slice, ast.Constant) and a.targets[0].slice.value == "uid" and unparse(a.value).endswith(".uid")]
-        if not reuse:
+        if target not in fn.params:
+            raise AnalysisError(f"{spec}: parameter {target} not found")
+        sites = {}
+        for path in _paths(ctx, fn, boring=_no_lookup, tag="lookup"):
+            for i, ev in enumerate(path.trace):
+                if ev.kind == "call" and call_name(ev.expr) in LOOKUPS:
+                    continue  # get_entity(uid=...) is the question, not a re-use
+                for val in _uid_reuse(ev):
+                    for v, sel in _alternatives(val):
+                        if not (isinstance(v, ast.Attribute) and v.attr == "uid"):
+                            continue  # None / a fresh uid: not a re-use
+                        made = next((e for e in path.trace[i:] if e.kind == "call" and call_name(e.expr) in creators and isinstance(e.expr.func, ast.Attribute)), None)
+                        if made is None:
+                            continue  # no copy is created on this path
+                        where_made = _t(_strip_ws(made.expr.func.value))
+                        src = _t(v)
+
+                        def free_in_target(x):
+                            if isinstance(x, ast.Subscript) and isinstance(x.slice, ast.Constant) and x.slice.value == 0:
+                                x = x.value
+                            if not (isinstance(x, ast.Call) and isinstance(x.func, ast.Attribute) and x.func.attr in LOOKUPS and x.args and _t(x.args[0]) == src):
+                                return False
+                            recv = x.func.value
+                            return isinstance(recv, ast.Attribute) and recv.attr == "workspace" and _root(recv) == target and _t(_strip_ws(recv)) == where_made
+
+                        ok = _absent(list(sel) + path.conds_before(ev), free_in_target)
+                        s = sites.setdefault((id(ev.node), src), {"ev": ev, "ok": True})
+                        s["ok"] &= ok
+        if not sites:
             raise AnalysisError(f"{spec}: uid re-use statement not found")
-        for a in reuse:
-            guard = None
-            for n in ast.walk(fn.node):
-                if isinstance(n, ast.If) and a in n.body:
-                    guard = n
-            src = unparse(a.value)
-            ok = False
-            if guard is not None:
-                t = guard.test
-                lookups = [c for c in ast.walk(t) if isinstance(c, ast.Call) and isinstance(c.func, ast.Attribute) and c.func.attr in
-                           ("get_entity", "find_entity", "find_property_group", "find_data", "find_object", "find_group")]
-                ok = any(unparse(c.func.value).startswith(target + ".") and c.args and unparse(c.args[0]) == src for c in lookups) and "is None" in unparse(t)
-            res.inst(f"{spec}: uid re-use `{unparse(a)[:50]}` under `{unparse(guard.test)[:60] if guard else None}`", nontrivial=True, ok=ok)
-            if not ok:
-                res.find("Workspace", fn.name, f"uid re-use not guarded by a lookup in the target: {unparse(a)[:50]}", f"{fn.module.relpath}:{a.lineno}",
+        for (_, src), s in sites.items():
+            ev = s["ev"]
+            res.inst(f"{spec}: uid re-use of `{src[:50]}` at line {ev.lineno} only when the lookup in {target}.workspace finds nothing", nontrivial=True, ok=s["ok"])
+            if not s["ok"]:
+                res.find("Workspace", fn.name, "uid re-use not guarded by a lookup in the target", f"{fn.module.relpath}:{ev.lineno}",
                          f"the copy takes the source's uid without checking that it is free in {target}.workspace: copying into the same "
                          "workspace (or one that already holds that uid) is refused or duplicates the identifier")
-        # the default must be 'no uid' (fresh)
+    # the default must be 'no uid' (fresh)
     ctp = p.func("Workspace.copy_to_parent")
-    ok = any(isinstance(k, ast.keyword) and k.arg == "attributes" and "'uid': None" in unparse(k.value) for k in ast.walk(ctp.node))
-    omit_uid = "_uid" in unparse(ctp.node)
-    res.inst("copy_to_parent: harvested attributes start without a uid (omit '_uid', attributes={'uid': None})", ok=ok and omit_uid)
-    if not (ok and omit_uid):
+    src_param = ctp.params[1] if len(ctp.params) > 1 else None
+    harvest = {}
+    for path in _paths(ctx, ctp, boring=_no_lookup, tag="lookup"):
+        for ev in path.trace:
+            if ev.kind == "call" and call_name(ev.expr) == "get_attributes" and ev.expr.args and _t(ev.expr.args[0]) == src_param:
+                c = ev.expr
+                kw = {k.arg: k.value for k in c.keywords}
+                omit = kw.get("omit_list", c.args[1] if len(c.args) > 1 else None)
+                attrs = kw.get("attributes", c.args[2] if len(c.args) > 2 else None)
+                if isinstance(attrs, ast.Name) and attrs.id in path.objdefs:
+                    attrs = path.objdefs[attrs.id]
+                if isinstance(omit, ast.Name) and omit.id in path.objdefs:
+                    omit = path.objdefs[omit.id]
+                omit_uid = omit is not None and any(isinstance(x, ast.Constant) and x.value == "_uid" for x in ast.walk(omit))
+                no_uid = isinstance(attrs, ast.Dict) and any(isinstance(v, ast.Constant) and v.value is None for v in _const_key_values(attrs, "uid")) \
+                    and all(isinstance(v, ast.Constant) and v.value is None for v in _const_key_values(attrs, "uid"))
+                harvest[id(ev.node)] = harvest.get(id(ev.node), True) and omit_uid and no_uid
+    ok = bool(harvest) and all(harvest.values())
+    res.inst("copy_to_parent: harvested attributes start without a uid (omit '_uid', attributes={'uid': None})", ok=ok)
+    if not ok:
         res.find("Workspace", "copy_to_parent", "the source uid is harvested into the copy's constructor arguments", ctp.where,
                  "copies into the same workspace re-use the identifier of their source")
-    et = p.func("EntityType.copy")
-    dels = [d for d in ast.walk(et.node) if isinstance(d, ast.Delete) and "uid" in unparse(d)]
-    ok = False
-    for d in dels:
-        for n in ast.walk(et.node):
-            if isinstance(n, ast.If) and d in n.body and "_types" in unparse(n.test) and "workspace" in unparse(n.test):
-                ok = True
-    # the target workspace arrives through kwargs: they must be merged into `attributes` before the test reads attributes.get("workspace")
-    body = et.node.body
-    # role: the attribute dictionary = the local that is splatted into the constructor call that is returned
-    from ..roles import canon
-    attr_names = {unparse(k.value) for r in ast.walk(et.node) if isinstance(r, ast.Return) and isinstance(r.value, ast.Call) for k in r.value.keywords if k.arg is None}
-    am = {nm: "attributes" for nm in attr_names}
-    upd = [i for i, st_ in enumerate(body) if isinstance(st_, ast.Expr) and canon(st_.value, am).startswith("attributes.update(")]
-    tst = [i for i, st_ in enumerate(body) if isinstance(st_, ast.If) and "_types" in unparse(st_.test)]
-    ok = ok and bool(upd) and bool(tst) and upd[0] < tst[0] and "attributes.get('workspace'" in canon(body[tst[0]].test, am)
+    _guard_type_copy(ctx, res)
+    return res
+
+
+def _guard_type_copy(ctx, res):
+    """EntityType.copy: the attribute dictionary handed to the constructor has lost its uid whenever that uid is a key of the
+    target workspace's types — the target being read from the dictionary AFTER the caller's kwargs were merged into it."""
+    et = ctx.p.func("EntityType.copy")
+    kwargs = et.node.args.kwarg.arg if et.node.args.kwarg else None
+    n, ok = 0, kwargs is not None
+    for path in _paths(ctx, et):
+        if path.end != "return" or not isinstance(path.value, ast.Call):
+            continue
+        splat = [k.value for k in path.value.keywords if k.arg is None]
+        if len(splat) != 1:
+            continue
+        n += 1
+        A = _t(splat[0])
+        trace = path.trace
+        merged = None
+        if isinstance(splat[0], ast.Dict) and any(k is None and _t(v) == kwargs for k, v in zip(splat[0].keys, splat[0].values)):
+            merged = -1
+        for i, ev in enumerate(trace):
+            if merged is not None:
+                break
+            if ev.maybe:
+                continue
+            if ev.kind == "call" and call_name(ev.expr) == "update" and isinstance(ev.expr.func, ast.Attribute) and _t(ev.expr.func.value) == A \
+                    and [_t(a) for a in ev.expr.args] == [kwargs]:
+                merged = i
+            elif ev.kind == "aug" and _t(ev.expr) == A and _t(ev.value) == kwargs and isinstance(ev.node.op, ast.BitOr):
+                merged = i
+            elif ev.kind == "obj" and _t(ev.expr) == A and isinstance(ev.value, ast.Dict) and ev.value.keys and ev.value.keys[-1] is None and _t(ev.value.values[-1]) == kwargs:
+                merged = i
+        me = et.self_name
+        uid_of = (f"{A}.get('uid')", f"{A}.get('uid', None)", f"{A}['uid']")
+        # what the merged dictionary holds is also known from its two sources: the caller's kwargs win over self's own values
+        uid_any_time = (f"{kwargs}.get('uid', {me}.uid)",)
+        ws_any_time = (f"{kwargs}.get('workspace', {me}.workspace)",)
+        good = False
+        if merged is not None:
+            for i, ev in enumerate(trace):
+                if ev.kind != "cond" or ev.maybe:
+                    continue
+                c, pol = norm_cond(ev.expr, ev.pol)
+                if not (isinstance(c, ast.Compare) and len(c.ops) == 1 and isinstance(c.ops[0], ast.In)):
+                    continue
+                if _t(c.left) == "'uid'" and _t(c.comparators[0]) in (A, f"{A}.keys()") and not pol and i > merged:
+                    good = True  # no uid at all
+                    break
+                types = c.comparators[0]
+                if isinstance(types, ast.Call) and call_name(types) == "keys" and not types.args:
+                    types = types.func.value
+                if not (isinstance(types, ast.Attribute) and types.attr == "_types"):
+                    continue
+                w = _t(types.value)
+                def after_merge(x):  # read from the dictionary after the kwargs went into it
+                    t0 = path.when(x)
+                    return i > merged and (t0 is None or t0 > merged)
+
+                if not (_t(c.left) in uid_of and after_merge(c.left) or _t(c.left) in uid_any_time):
+                    continue
+                if not ((w.startswith(f"{A}.get('workspace'") or w == f"{A}['workspace']") and after_merge(types.value) or w in ws_any_time):
+                    continue
+                dropped = any(e.kind == "del" and _t(e.expr) == f"{A}['uid']" or e.kind == "call" and call_name(e.expr) == "pop" and isinstance(e.expr.func, ast.Attribute)
+                              and _t(e.expr.func.value) == A and e.expr.args and _t(e.expr.args[0]) == "'uid'" for e in trace[i:] if not e.maybe)
+                good = dropped if pol else True
+                break
+        ok = ok and good
+    ok = ok and n > 0
     res.inst("EntityType.copy drops the uid when it is taken in the target workspace's types (kwargs merged first)", nontrivial=True, ok=ok)
     if not ok:
         res.find("EntityType", "copy", "uid kept although the target workspace may hold that type uid", et.where,
                  "copying a type into the same workspace collides with the original")
-    return res
 
 
 RULES = [rule_own, rule_xkind, rule_effect, rule_guard]
